@@ -512,8 +512,14 @@ fn write_bits(bytes: &mut [u8], big: bool, shift: u64, width: u64, v: u64) {
 /// substitution over the alphabet and neighbours, and every field-targeted overwrite.
 pub fn for_all_mutants(e: &Enc, big: bool, f: &mut dyn FnMut(&[u8])) {
     let b = &e.bytes;
+    // long encodings (large arrays): the prefixes and substitutions of the first 40 and last 8
+    // bytes, plus a stride through the middle; the field-targeted mutants are always complete
+    let long = b.len() > 64;
+    let pick = |i: usize| !long || i < 40 || i + 8 >= b.len() || i % (b.len() / 16).max(1) == 0;
     for n in 0..b.len() {
-        f(&b[..n]);
+        if pick(n) {
+            f(&b[..n]);
+        }
     }
     let mut buf = b.clone();
     for x in B_ALPHABET {
@@ -522,6 +528,9 @@ pub fn for_all_mutants(e: &Enc, big: bool, f: &mut dyn FnMut(&[u8])) {
         buf.pop();
     }
     for i in 0..b.len() {
+        if !pick(i) {
+            continue;
+        }
         let orig = b[i];
         let mut subs: Vec<u8> = B_ALPHABET.to_vec();
         for s in [orig ^ 1, orig ^ 0x80, orig.wrapping_add(1), orig.wrapping_sub(1)] {
@@ -556,6 +565,17 @@ pub fn for_all_mutants(e: &Enc, big: bool, f: &mut dyn FnMut(&[u8])) {
                         write_bits(&mut mb[c.start..c.start + c.len], big, m.shift, m.width, v);
                         if mb != *b {
                             f(&mb);
+                        }
+                        // a size / count / element size larger than the data, with enough
+                        // bytes appended for it to be satisfiable
+                        if matches!(m.kind, BitKind::Size | BitKind::Count | BitKind::ElemSize) && v >= 1 && v <= 72 {
+                            for extra in [v as usize, 8 * v as usize] {
+                                if extra <= 160 {
+                                    let mut ext = mb.clone();
+                                    ext.extend((0..extra).map(|i| 0x11u8.wrapping_add(i as u8)));
+                                    f(&ext);
+                                }
+                            }
                         }
                     }
                 }
